@@ -20,7 +20,7 @@ TCloseC == Is("closecall") /\ CloseCall(Ev.i, Ev.t) /\ K /\ Adv
 TCloseR == /\ Is("closeret")
            /\ IF Ev.ok THEN CloseRetNil(Ev.i, Ev.states) ELSE CloseRetErr(Ev.i, Ev.t, timeout)
            /\ K /\ Adv
-TRunRet == Is("runret") /\ RunRet(Ev.states) /\ K /\ Adv
+TRunRet == Is("runret") /\ RunRet(Ev.states, Ev.t, timeout) /\ K /\ Adv
 TSubCl  == Is("subclose") /\ SubClose /\ K /\ Adv
 TPubCl  == Is("pubclose") /\ PubClose /\ K /\ Adv
 TQuiesce == Is("quiesce") /\ Quiescent(Ev.states, nh, expectSub) /\ UNCHANGED cvars /\ K /\ Adv
